@@ -111,6 +111,10 @@ def _allowed(site) -> Optional[str]:
     return None
 
 
+def _ob_absent(chk, *a, **k):
+    return chk.ob(*a, absent_is_unknown=True, **k)
+
+
 def run(db, chk) -> None:
     from ..specs.discipline import check_stateless
     check_stateless(db, chk, "C20.R-stateless", ["hta.analyzers.critical_path_analysis"], scope=["CriticalPathAnalysis.overlay_critical_path_analysis"])    # incl. "no generator consumed twice" for the edge stream of the overlay
@@ -129,7 +133,7 @@ def run(db, chk) -> None:
                     al[nf.args.args[0].arg] = al[H.name_id(c.args[0])]
         chk.analysed_add("functions", f"{mod.name}:{q}")
         chk.analysed_add("raw_trace_aliases", {q: {k: v[1] for k, v in al.items()}})
-        chk.ob("C20.R1-mutation-whitelist", f"{q}: the raw trace read from the source file is tracked", bool(al), mod.loc(f), found=sorted(al), accepted="a variable bound to get_raw_trace_for_one_rank / read_trace")
+        _ob_absent(chk, "C20.R1-mutation-whitelist", f"{q}: the raw trace read from the source file is tracked", bool(al), mod.loc(f), found=sorted(al), accepted="a variable bound to get_raw_trace_for_one_rank / read_trace")
         for s in _mutation_sites(mod, f, al):
             total += 1
             why = _allowed(s)
